@@ -757,3 +757,170 @@ Proof.
   eexists. split; [vm_compute; reflexivity|]. split; [right; reflexivity|]. split; [reflexivity|].
   eexists. split; [vm_compute; reflexivity|]. split; [reflexivity|left; reflexivity].
 Qed.
+
+(* ------------------------------------------------------------------------- *)
+(* the fault-free request makes progress (the dispatch loop cannot starve the workers) *)
+(* ------------------------------------------------------------------------- *)
+Lemma cids_length_nonone (c : list (option Z)) : Forall (fun m => m <> None) c ->
+  length (flat_map (fun m => match m with Some i => [i] | None => [] end) c) = length c.
+Proof.
+  induction 1 as [|m c Hm _ IH]; simpl; [reflexivity|]. destruct m; [simpl; rewrite IH; reflexivity|congruence].
+Qed.
+
+(* while the parent waits in get() with ids still to issue, the 2*workers ids that filled cmd are
+   still in the system (nothing left it: no game was received since, no worker has exited) *)
+Lemma waiting_backlog cfg s : reachable cfg s -> no_exit s ->
+  pc (par s) = PWaiting -> (todo (par s) > 0)%nat ->
+  (length (cmd_ids s) + length (playing_ids s) + length (game_ids s) >= 2 * nworkers s)%nat.
+Proof.
+  induction 1 as [n|s e s' R IH H]; intros NE; [discriminate|].
+  specialize (IH (no_exit_back _ _ _ _ H NE)).
+  pose proof (inv_reachable _ _ R) as I. pose proof (inv_nonone _ I) as NN.
+  destruct e; inv_step H; unfold set_pc, set_par, set_w, cmd_cap, nworkers in *; simpl; intros P T; try discriminate P.
+  all: try solve [no_exit_contra NE].
+  all: try solve [unfold cmd_ids, game_ids, playing_ids in *; simpl in *; rewrite upd_length; split_ws; eqs;
+                  repeat rewrite ?flat_map_app, ?app_length in *; simpl in *;
+                  specialize (IH eq_refl T); repeat rewrite ?flat_map_app, ?app_length in *; simpl in *; lia].
+  all: try solve [specialize (IH P T); unfold cmd_ids, game_ids, playing_ids in *; simpl in *; lia].
+  - (* EFull *)
+    eqs. unfold cmd_ids. simpl. rewrite cids_length_nonone; [lia|]. apply NN. right. unfold in_request. auto.
+  - (* EFillEnd: todo = 0 *) lia.
+Qed.
+
+(* before stop() nobody has seen a shutdown sentinel *)
+Lemma no_done cfg s : reachable cfg s -> (pc (par s) = PBetween \/ in_request (pc (par s))) ->
+  forall w, nth_error (ws s) w <> Some Done.
+Proof.
+  induction 1 as [n|s e s' R IH H]; intros P w X.
+  - unfold init in X. simpl in X. apply nth_error_In in X. apply repeat_spec in X. discriminate.
+  - pose proof (inv_reachable _ _ R) as I. pose proof (inv_nonone _ I) as NN.
+    destruct e; inv_step H; unfold set_pc, set_par, set_w, in_request in *; simpl in *.
+    all: try solve [destruct P as [P|[P|[P|P]]]; discriminate P].
+    all: try solve [eapply IH; eauto; rewrite ?Heqp; unfold in_request; auto].
+    all: try solve [rewrite nth_error_upd in X; destruct (Nat.eqb_spec w0 w);
+                    [subst; match goal with Y : nth_error (ws _) _ = Some _ |- _ => rewrite Y in X end; discriminate X
+                    |eapply IH; eauto; rewrite ?Heqp; unfold in_request; auto]].
+    all: try solve [apply nth_error_In in X; apply in_map_iff in X; destruct X as (st & K & _);
+                    destruct (kill_one_exited st) as (c & K'); congruence].
+    + (* WTake None is impossible: no sentinel in cmd *)
+      exfalso. specialize (NN P). inversion NN; subst. congruence.
+Qed.
+
+Lemma flat_map_playing_nth l :
+  flat_map (fun st => match st with Playing i => [i] | _ => [] end) l <> [] ->
+  exists w id, nth_error l w = Some (Playing id).
+Proof.
+  induction l as [|a l IH]; simpl; [congruence|]. intros H. destruct a; simpl in H;
+    try (destruct (IH H) as (w & id & X); exists (S w), id; exact X).
+  exists 0%nat, id. reflexivity.
+Qed.
+
+(* Fault-free progress of a request: as long as it is running, no worker has exited and no lock is
+   dead, somebody can take a step that is neither a fault nor a (spurious) timeout.  In particular
+   the parent always gets from its dispatch loop to the timed get (EFull = `except queue.Full: break`)
+   and the ids that filled cmd keep the workers busy meanwhile. *)
+Lemma request_progress_l cfg s : reachable cfg s ->
+  outcome (par s) = ORunning -> no_exit s -> intact s -> rdead s = false -> (nworkers s >= 1)%nat ->
+  exists e s', is_fault e = false /\ e <> ETimeout /\ step cfg e s = Some s'.
+Proof.
+  intros R O NE [NT NS] RD W1. pose proof (inv_reachable _ _ R) as I.
+  pose proof (proj1 (inv_run _ I) O) as [P|[P|P]]; [| |congruence].
+  - (* dispatch loop *)
+    destruct (todo (par s)) as [|t] eqn:T.
+    + exists EFillEnd. unfold step. rewrite P, T. eexists. repeat split; congruence.
+    + destruct (Nat.ltb (length (cmd s)) (cmd_cap s)) eqn:L.
+      * exists EPut. unfold step. rewrite P, T, L. eexists. repeat split; congruence.
+      * exists EFull. unfold step. rewrite P, T, L. eexists. repeat split; congruence.
+  - (* timed get *)
+    destruct (games s) as [|g gs] eqn:G.
+    2: { destruct g as [id|]; [|exfalso; apply NT; left; reflexivity].
+         exists ERecv. unfold step. rewrite P, G.
+         destruct (Nat.eqb _ _); eexists; repeat split; congruence. }
+    assert (B : (length (cmd_ids s) + length (playing_ids s) >= 1)%nat).
+    { pose proof (count_invariant_l _ _ R NE) as C. pose proof (inv_short _ I O) as Sh.
+      assert (GI : game_ids s = []) by (unfold game_ids; rewrite G; reflexivity). rewrite GI in C. simpl in C.
+      destruct (todo (par s)) as [|t] eqn:T; [lia|].
+      pose proof (waiting_backlog _ _ R NE P) as Q. rewrite T, GI in Q. simpl in Q. specialize (Q ltac:(lia)). lia. }
+    destruct (playing_ids s) as [|pid pl] eqn:PL.
+    2: { assert (NEp : flat_map (fun st => match st with Playing i => [i] | _ => [] end) (ws s) <> []).
+         { unfold playing_ids in PL. rewrite PL. discriminate. }
+         destruct (flat_map_playing_nth _ NEp) as (w & id & X).
+         exists (WFinish w). unfold step. rewrite X, G. unfold games_cap.
+         assert (L : Nat.ltb (length (@nil gmsg)) (nworkers s) = true) by (apply Nat.ltb_lt; simpl; lia).
+         rewrite L. eexists. repeat split; congruence. }
+    simpl in B. destruct (cmd s) as [|m c] eqn:C; [unfold cmd_ids in B; rewrite C in B; simpl in B; lia|].
+    (* somebody can get at the queued id *)
+    assert (TK : forall w', nth_error (ws s) w' = Some Reading ->
+                 exists e s', is_fault e = false /\ e <> ETimeout /\ step cfg e s = Some s').
+    { intros w' X. exists (WTake w'). unfold step. rewrite X, C. eexists. repeat split; congruence. }
+    destruct (nth_error (ws s) 0) as [st0|] eqn:X0;
+      [|exfalso; apply nth_error_None in X0; unfold nworkers in W1; lia].
+    destruct st0.
+    + exists (WReady 0). unfold step. rewrite X0. eexists. repeat split; congruence.
+    + destruct (existsb is_reading (ws s)) eqn:ER.
+      * destruct (existsb_reading_nth _ ER) as (w' & X'). apply (TK w' X').
+      * exists (WLock 0). unfold step. rewrite X0, RD, ER. simpl. eexists. repeat split; congruence.
+    + apply (TK 0%nat X0).
+    + exfalso. unfold playing_ids in PL. apply nth_error_In in X0.
+      pose proof (flat_map_nil_all _ _ PL _ X0) as E. discriminate E.
+    + exfalso. apply (no_done _ _ R (or_intror (or_intror (or_introl P))) 0%nat X0).
+    + exfalso. apply (NE 0%nat code X0).
+Qed.
+
+(* ... and it cannot go on for ever: every step that is neither a fault, nor a timeout, nor the start of
+   a request lowers a measure bounded by 6*N + 2*workers + 2 *)
+Definition rrank (st : wstate) : nat :=
+  match st with Starting => 2 | Idle => 1 | Done => 1 | _ => 0 end.
+Definition pcrank (c : pc_t) : nat := match c with PFilling => 2 | PWaiting => 1 | _ => 0 end.
+Definition rmeasure (s : state) : nat :=
+  (6 * todo (par s) + 5 * length (cmd_ids s) + 4 * length (playing_ids s) + 2 * length (game_ids s)
+   + list_sum (map rrank (ws s)) + pcrank (pc (par s)))%nat.
+Definition productive (e : event) : bool :=
+  negb (is_fault e) && negb (is_begin e) && match e with ETimeout => false | _ => true end.
+
+Lemma rmeasure_step cfg e s s' : Inv s -> outcome (par s) = ORunning -> step cfg e s = Some s' ->
+  productive e = true -> (rmeasure s' < rmeasure s)%nat.
+Proof.
+  intros I O H Pr. pose proof (proj1 (inv_run _ I) O) as IR. pose proof (inv_nonone _ I (or_intror IR)) as NN.
+  destruct e; try discriminate Pr; inv_step H; unfold set_pc, set_par, set_w, in_request in *.
+  all: try solve [exfalso; destruct IR as [P|[P|P]]; congruence].
+  all: unfold rmeasure, pcrank, cmd_ids, game_ids, playing_ids in *; simpl in *.
+  all: split_ws; eqs; simpl in *.
+  all: repeat rewrite ?flat_map_app, ?map_app, ?list_sum_app, ?app_length in *; simpl in *.
+  all: try lia.
+  all: try solve [exfalso; inversion NN; subst; congruence].
+Qed.
+
+Lemma request_bounded_l cfg tr : forall s s', reachable cfg s -> run cfg tr s = Some s' ->
+  outcome (par s') = ORunning -> (forall e, In e tr -> productive e = true) ->
+  outcome (par s) = ORunning /\ (length tr + rmeasure s' <= rmeasure s)%nat.
+Proof.
+  induction tr as [|e tr IH]; intros s s' R H O' Pr; simpl in H.
+  - inversion H; subst. split; [assumption|simpl; lia].
+  - destruct (step cfg e s) as [s1|] eqn:E; [|discriminate].
+    pose proof (reach_step _ _ _ _ R E) as R1.
+    destruct (IH _ _ R1 H O' (fun x Hx => Pr x (or_intror Hx))) as (O1 & L).
+    pose proof (Pr e (or_introl eq_refl)) as Pe.
+    assert (O : outcome (par s) = ORunning).
+    { destruct (outcome (par s)) eqn:Os; auto; exfalso;
+        (assert (NB : is_begin e = false) by (unfold productive in Pe; destruct (is_begin e); [rewrite andb_false_r in Pe; discriminate|reflexivity]));
+        (assert (NR : outcome (par s) <> ORunning) by congruence);
+        destruct (outcome_stable _ _ _ _ (inv_reachable _ _ R) E NB NR) as (X & _); congruence. }
+    split; [assumption|]. pose proof (rmeasure_step _ _ _ _ (inv_reachable _ _ R) O E Pe). simpl. lia.
+Qed.
+
+(* N = 5 on one worker (more than cmd 2 + playing 1 + games 1 can hold): the parent meets queue.Full,
+   goes to its timed get, and a fault-free, timeout-free schedule returns exactly [0;1;2;3;4] *)
+Example request_progress_hyps :
+  exists s, run current [EBegin 5; WReady 0; EPut; EPut; EFull] (init 1) = Some s /\
+    outcome (par s) = ORunning /\ no_exit s /\ intact s /\ rdead s = false /\ (nworkers s >= 1)%nat /\
+    rmeasure s = 30%nat /\
+    let g := [WLock 0; WTake 0; WFinish 0; ERecv] in
+    exists s', run current (g ++ [EPut; EFull] ++ g ++ [EPut; EFull] ++ g ++ [EPut; EFillEnd] ++ g ++ [EFillEnd] ++ g) s = Some s' /\
+      outcome (par s') = OReturned /\ collected (par s') = [0; 1; 2; 3; 4].
+Proof.
+  eexists. split; [vm_compute; reflexivity|]. split; [reflexivity|].
+  split; [intros w c; destruct w as [|[|w]]; simpl; discriminate|].
+  split; [split; [intros []|discriminate]|]. split; [reflexivity|]. split; [unfold nworkers; simpl; lia|]. split; [reflexivity|].
+  eexists. split; [vm_compute; reflexivity|]. split; reflexivity.
+Qed.
